@@ -46,6 +46,7 @@ def lifeC02 (U : List Int) (o : LObs) : List (String × Bool) :=
 
 def LOp.isConnect : LOp → Bool
   | .connect _ => true
+  | .connectLate _ => true
   | _ => false
 
 /-- the client half of C06's identity sentences, one phase -/
